@@ -8,7 +8,11 @@ Decided:
   R12.a  no shared write on the request path: every store / mutating call in every clastic core function
          reachable from Application.__call__ targets a fresh or request-local object; the generated code
          (chain levels, request core) contains no store except locals and __traceback_hide__ and closes over
-         ``funcs`` only;
+         ``funcs`` only; ``x op= v`` on a local that may name a mutable object counts as a mutation of that object;
+         ownership: an object held in a field of a per-request object (DispatchState, ...) is updated in place (method
+         call, ``field op= v``, through a local naming it -- inside the class or wherever an instance is at hand) only
+         if every value ever stored into that field was allocated by the storing activation (never an adopted alias
+         of a route's / the application's object);
   R12.b  immutability after construction: BoundRoute attributes are written in __init__ only (no method of
          BoundRoute other than __init__ stores to self; nothing stores through a route-typed name);
          Application.routes only in __init__/add (R06.a);
@@ -58,7 +62,8 @@ def run(rep):
     rep.decline('interleavings inside werkzeug / user code; memory-model questions below the Python level')
     rep.assume('itertools.count.__next__ is a single C call under the GIL')
     rep.assume('user-supplied endpoints / middlewares / renderers and werkzeug do not share state between requests')
-    rep.rule('R12.a', 'effect classification over the call-graph closure from Application.__call__; generated code has no heap store')
+    rep.rule('R12.a', 'effect classification over the call-graph closure from Application.__call__ (incl. in-place augmented assignments); '
+                      'fields of per-request objects that are updated in place only hold objects allocated by the request; generated code has no heap store')
     rep.rule('R12.b', 'who-may-write BoundRoute attributes')
     rep.rule('R12.c', 'single source of request ids')
     rep.rule('R12.d', 'inventory of per-request self-writes in built-in middlewares')
